@@ -10,9 +10,10 @@ BASELINE_OFF = ("for m in $(cat /w/out/gomods.txt); do MF=$(cd /repo/$m && . /w/
 
 # id -> (technique, level text, level note, design ref)
 LEDGER_NOTE = ("Trusted: TLC, JSON bridge, the harness's read-only projection through exported state readers (no hook). "
-               "Amounts < 2^31. Staking methods, node registration / unfreeze, runtime registration and governance-model "
-               "transitions, compute-role node updates, entity deregistration; governance proposals, roothash commits, vault and "
-               "key-manager methods are not generated yet.")
+               "Amounts < 2^31. Scenarios: staking methods, node registration / unfreeze / hand-over / key theft, runtime registration "
+               "and governance-model transitions, compute-role node updates, entity deregistration, governance proposals and votes, "
+               "executor commitments, VRF proofs; insecure and VRF beacon backends. Vault and key-manager methods, runtime messages "
+               "and TEE runtimes are not generated.")
 
 CHECKS = {
     "C04": (
@@ -72,8 +73,8 @@ CHECKS = {
         "runtime version, expiry, freeze, suspension, entity stake, validator-set constraint), exact sizes or no committee, MaxNodes "
         "per entity, MinPoolSize, no duplicates, no stale committee - for every election of seeded runs on real multiplexers "
         "(epoch changes and post-slashing re-elections, binding validator-count and per-entity limits, tied stakes).",
-        LEDGER_NOTE + " Runtime committees: entropy (insecure-beacon) path only, no TEE runtimes, no VRF elections; the election input "
-        "is recorded before the scheduler's BeforeSchedule notification (roothash liveness processing is idle in the scenarios).",
+        LEDGER_NOTE + " Committee elections on both beacon backends (entropy path and VRF proofs); the election input is recorded "
+        "before the scheduler's BeforeSchedule notification (roothash liveness processing is idle in the scenarios).",
         "DESIGN.md 4 C14, R.9"),
     "C01": (
         "Replica.tla (proposal cache of the ABCI multiplexer) checked by TLC; TLC-emitted path-assignment rows drive seeded block "
